@@ -230,6 +230,7 @@ class Side:
         except (core.Escape, core.Inconclusive, core._Abort, core.Counterexample):
             raise
         except Exception as e:
+            core.check_leak(e)
             self.errors.append((what, type(e).__name__, str(e)[:160]))
             return None
 
@@ -324,6 +325,7 @@ class DWorld:
         except (core.Escape, core.Inconclusive, core._Abort, core.Counterexample):
             raise
         except Exception as e:
+            core.check_leak(e)
             # Twisted logs an exception escaping dataReceived and drops the connection
             self.logged.append("dataReceived:" + type(e).__name__)
             pipe.loseConnection()
